@@ -46,6 +46,25 @@ impl SimpleCase for JsonCase {
             else if arr("sourcesContent") != Some(m.contents.clone()) { v.push(finding("field-sourcesContent", format!("{:?}", arr("sourcesContent")))); }
           }
         }
+        // a value derived from another by clone() + setters serialises like a freshly built one, and leaves its origin alone — in
+        // either order of serialisation (a serialisation memoised on the shared part of two clones would show here: seed S116)
+        {
+          let other = SMapT { file: Some(match &m.file { Some(f) => format!("{f}.2"), None => "derived.js".into() }), debug_id: Some("d-1".into()), ..m.clone() };
+          let fresh_other = other.build().to_json().unwrap_or_default();
+          let fresh_self = String::from_utf8_lossy(&bytes).to_string();
+          for first_origin in [true, false] {
+            // `to_json` consumes its receiver: serialise clones, as a caller who keeps the map does
+            let a = m.build();
+            if first_origin { let _ = a.clone().to_json(); let _ = format!("{:?}", a); }
+            let mut b = a.clone();
+            b.set_file(other.file.clone()); b.set_debug_id(other.debug_id.clone());
+            let jb = b.clone().to_json().unwrap_or_default();
+            let ja = a.clone().to_json().unwrap_or_default();
+            let mut wb = vec![]; let _ = b.clone().to_writer(&mut wb);
+            if jb != fresh_other || wb != fresh_other.as_bytes() { v.push(finding("clone-then-setters", format!("a clone changed by set_file / set_debug_id serialises as {:?}, a map built with those fields as {:?}", jb, fresh_other))); }
+            if ja != fresh_self { v.push(finding("clone-then-setters", format!("after a clone of it was changed, the origin serialises as {:?} instead of {:?}", ja, fresh_self))); }
+          }
+        }
         // parsing it back with the three entry points
         let text = String::from_utf8_lossy(&bytes).to_string();
         let want = SMapT { contents: if m.contents.iter().all(|c| c.is_empty()) { vec![] } else { m.contents.clone() }, ..m.clone() };
